@@ -12,7 +12,8 @@ Record sinv (ls : list label) (o : obs) (st : state) : Prop := mkSinv {
   si_init : forall x, a_init x (front_run f0 ls) = init_of x ls;
   si_cred : forall y s, creds y s (concat o) = if N.eqb s 0 then fclc y ls else fcls y s ls;
   si_dir : forall y, directs (other y) (concat o) = flat_map direct_of (from y ls);
-  si_maxf : forall x, f_maxf (sf st) x = maxf_of x ls
+  si_maxf : forall x, f_maxf (sf st) x = maxf_of x ls;
+  si_tab : forall x, f_tab (sf st) x = tabsz_of x ls
 }.
 
 Lemma finv_init x : finv x [] [] flow0.
@@ -29,6 +30,20 @@ Proof.
   - intros x. destruct x; apply finv_init.
   - intros y s. destruct (N.eqb s 0); reflexivity.
   - intros x. destruct x; reflexivity.
+  - intros x. destruct x; reflexivity.
+Qed.
+
+Lemma settings_of_snoc x ls l :
+  settings_of x (ls ++ [l]) =
+  settings_of x ls ++ (if side_eqb (l_from l) x then match l_frame l with FSettings kv => [kv] | _ => [] end else []).
+Proof.
+  unfold settings_of. rewrite from_snoc, flat_map_app. destruct (side_eqb (l_from l) x); simpl; rewrite ?app_nil_r; reflexivity.
+Qed.
+Lemma tabsz_snoc x ls l :
+  tabsz_of x (ls ++ [l]) = if side_eqb (l_from l) x then set1 1 (tabsz_of x ls) (l_frame l) else tabsz_of x ls.
+Proof.
+  unfold tabsz_of, tab_last. rewrite settings_of_snoc, fold_left_app.
+  destruct (side_eqb (l_from l) x); [|reflexivity]. destruct (l_frame l); reflexivity.
 Qed.
 
 Lemma concat_snoc {A} (o : list (list A)) e : concat (o ++ [e]) = concat o ++ e.
@@ -37,7 +52,7 @@ Proof. rewrite concat_app. simpl. rewrite app_nil_r. reflexivity. Qed.
 Lemma sinv_step ls o st l f' acts b' e :
   sinv ls o st -> run s0 ls = (st, o) -> length o = length ls ->
   front (sf st) (l_from l) (l_frame l) = Some (f', acts) ->
-  bsteps (sb st) (l_order l) acts = (b', e) ->
+  bsteps (f_tab f') (sb st) (l_order l) acts = (b', e) ->
   sinv (ls ++ [l]) (o ++ [e]) (mkS f' b').
 Proof.
   intros I R Hlen F B.
@@ -50,14 +65,15 @@ Proof.
   - intros x s. rewrite a_wus_app, L2, si_wus0, wus_snoc. reflexivity.
   - intros x. rewrite a_init_app, si_init0. unfold init_of. rewrite L3, from_snoc.
     destruct (side_eqb (l_from l) x); [rewrite last_setting_snoc|rewrite app_nil_r]; reflexivity.
-  - intros y s. destruct (bsteps_out _ _ _ _ _ y s y W B) as (A1 & _).
+  - intros y s. destruct (bsteps_out _ _ _ _ _ _ y s y W B) as (A1 & _).
     rewrite creds_app, A1, L4, si_cred0, fclc_snoc, fcls_snoc.
     destruct (N.eqb s 0); reflexivity.
-  - intros y. destruct (bsteps_out _ _ _ _ _ y 0%N (other y) W B) as (_ & A2).
+  - intros y. destruct (bsteps_out _ _ _ _ _ _ y 0%N (other y) W B) as (_ & A2).
     rewrite directs_app, A2, L5, si_dir0, from_snoc, flat_map_app.
     destruct (l_from l), y; simpl; rewrite ?app_nil_r; reflexivity.
   - intros x. cbn [sf]. rewrite L6, si_maxf0. unfold maxf_of. rewrite from_snoc.
     destruct (side_eqb (l_from l) x); [rewrite last_setting_snoc|rewrite app_nil_r]; reflexivity.
+  - intros x. cbn [sf]. rewrite (front_tab _ _ _ _ _ F x), si_tab0, tabsz_snoc. reflexivity.
 Qed.
 
 Lemma firstn_snoc_all {A} (ls : list A) l : firstn (length ls) (ls ++ [l]) = ls.
@@ -76,7 +92,7 @@ Proof.
     destruct (step stk l) as [[st2 e]|] eqn:S.
     + inversion R; subst. unfold step in S.
       destruct (front (sf stk) (l_from l) (l_frame l)) as [[f' acts]|] eqn:F; [|discriminate].
-      destruct (bsteps (sb stk) (l_order l) acts) as [b' evs] eqn:B. inversion S; subst.
+      destruct (bsteps (f_tab f') (sb stk) (l_order l) acts) as [b' evs] eqn:B. inversion S; subst.
       eapply sinv_step; eauto.
     + injection R as E1 E2. apply (f_equal (@length _)) in E2. rewrite firstn_length in E2. lia.
 Qed.
@@ -218,10 +234,10 @@ Proof.
   inversion Rk1 as [[H1 H2]]. apply app_inj_tail in H2. destruct H2 as [_ He]. subst e st2.
   unfold step in S.
   destruct (front (sf stk) (l_from (nth k ls l0)) (l_frame (nth k ls l0))) as [[f' acts]|] eqn:F; [|discriminate].
-  destruct (bsteps (sb stk) (l_order (nth k ls l0)) acts) as [b' evs] eqn:B. inversion S; subst.
+  destruct (bsteps (f_tab f') (sb stk) (l_order (nth k ls l0)) acts) as [b' evs] eqn:B. inversion S; subst.
   destruct (front_ledger _ _ _ _ _ F) as (W & _).
   pose proof (front_shape _ _ _ _ _ x F (single_init_nth ls k l0 Hsi ltac:(lia))) as Hsh.
-  destruct (bsteps_safe _ x s _ _ _ _ _ _ (si_b _ _ _ I) W Hsh B) as (_ & Sf).
+  destruct (bsteps_safe _ _ x s _ _ _ _ _ _ (si_b _ _ _ I) W Hsh B) as (_ & Sf).
   destruct Sf as [Hz|(w & q & L & Hw)]; [lia|].
   destruct (si_b _ _ _ I1 x) as [C1 _]. cbn [sb] in C1.
   unfold win_at, pre, evs_to.
